@@ -259,6 +259,27 @@ func runC12(r *simkit.Run, c Cfg) {
 				try("a bit of the nonce flipped", flipBit(n, tp.Choose(len(n)*8, "nflip")), ct)
 				try("a bit of the ciphertext flipped", n, flipBit(ct, tp.Choose(len(ct)*8, "cflip")))
 			}
+			// the empty payload is a payload: it round-trips like any other,
+			// through the general function and the metadata wrapper
+			for _, empty := range [][]byte{nil, {}} {
+				n0, ct0, err := dhash.EncryptAES(empty, vk)
+				if err != nil {
+					r.Violate("c12.roundtrip", "encrypting an empty payload failed: %v", err)
+					continue
+				}
+				if back, err := dhash.DecryptAES(n0, ct0, vk); err != nil || len(back) != 0 {
+					r.Violate("c12.roundtrip", "decrypt(encrypt(empty payload)) gave %d bytes, %v", len(back), err)
+				}
+				if _, err := dhash.DecryptAES(n0, ct0, other); err == nil {
+					r.Violate("c12.failclosed", "an empty payload decrypted under a different passphrase")
+				}
+				em0, err := dhash.EncryptMetadata(empty, vk)
+				if err != nil {
+					r.Violate("c12.roundtrip", "encrypting empty metadata failed: %v", err)
+				} else if back, err := dhash.DecryptMetadata(em0, vk); err != nil || len(back) != 0 {
+					r.Violate("c12.roundtrip", "decrypt(encrypt(empty metadata)) gave %d bytes, %v", len(back), err)
+				}
+			}
 			hvk := sha256.Sum256(vk)
 			mdKey := base58.Encode(hvk[:])
 			switch e.tamper {
